@@ -5,7 +5,7 @@ import copy
 OUTCOMES = ['done', 'failedRet', 'raises', 'retNone', 'notPair', 'badStatus', 'badUpdate',
             # variants of the classes above (mapped onto them for the model, see MODEL_OUTCOME)
             'sysExit', 'retWaiting', 'retPending', 'clobberOwn', 'badUpdateEmptyList', 'badUpdateZero', 'badUpdateEmptyStr',
-            'raisingIterable', 'ownReadOnly',
+            'raisingIterable', 'ownReadOnly', 'doneFrozenUpdate',
             # a well-formed pair whose update cannot be merged into the environment (a nested mapping addressed to a key that
             # holds a number): the task is FAILED; the model has no such outcome - these cases are decided by the oracles only
             'unappliable']
@@ -16,7 +16,9 @@ MODEL_OUTCOME = {'sysExit': 'raises', 'retWaiting': 'badStatus', 'retPending': '
                  'badUpdateEmptyList': 'badUpdate', 'badUpdateZero': 'badUpdate', 'badUpdateEmptyStr': 'badUpdate',
                  # a result whose unpacking raises something else than TypeError / ValueError is not a pair; an own entry
                  # that cannot be written to (read-only mapping) cannot be recorded: a bad update
-                 'raisingIterable': 'notPair', 'ownReadOnly': 'badUpdate', 'unappliable': 'badUpdate'}
+                 'raisingIterable': 'notPair', 'ownReadOnly': 'badUpdate', 'unappliable': 'badUpdate',
+                 # a well-formed result whose update is a read-only mapping (any Mapping is an update): a task that is DONE
+                 'doneFrozenUpdate': 'done'}
 CORRESPONDS = ('Model/Sched.lean (init, step, enabled, decide, terminal) vs valjean.cosette.backends.queue.QueueScheduling + '
                'valjean.cosette.env.Env under the controlled scheduler (harness/vcheck/ctlsched.py): the recorded schedule is '
                'replayed in the model; environment, queue, counters, what every task saw when it started and the set of enabled '
@@ -60,6 +62,13 @@ def gen_round(rng, n, deps, hard, profile):
         rnd['insert'] = rng.sample(range(n), n) if rng.random() < 0.6 else list(range(n - 1, -1, -1))
     if n >= 3 and rng.random() < 0.12:
         add_group(rng, rnd)
+    soft = [(s, d) for s in range(n) for d in rnd['deps'][s] if d not in rnd['hard'][s]]
+    if soft and rng.random() < 0.12:
+        # one soft dependency is expressed through an empty stage: an empty nested DepGraph (or one that holds only an
+        # empty DepGraph) that stands between the two tasks, tied to one of them in the hard graph and to the other one in
+        # the soft graph.  Flattened, it means what `deps` / `hard` say: the soft dependency itself
+        s, d = rng.choice(soft)
+        rnd['bridge'] = {'t': s, 'd': d, 'kind': rng.choice(['hs', 'sh']), 'nested': rng.random() < 0.3}
     return rnd
 
 
@@ -196,7 +205,7 @@ def shrink(case):
                 del rnd['group']
         yield cand
     for ri, rnd in enumerate(case['rounds']):
-        for key in ('group', 'insert'):
+        for key in ('group', 'insert', 'bridge'):
             if key in rnd:
                 new = copy.deepcopy(case['rounds'])
                 del new[ri][key]
@@ -334,6 +343,9 @@ def run_rounds(case, sched_override=None):
                 return boom()
             if out == 'unappliable':
                 return {'shared': {'blocker': {'x': 1}}, self.name: {'result': version}}, TaskStatus.DONE
+            if out == 'doneFrozenUpdate':
+                import types
+                return types.MappingProxyType(update), TaskStatus.DONE
             if out == 'ownReadOnly':
                 import types
                 return {self.name: types.MappingProxyType({'result': version})}, TaskStatus.DONE
@@ -368,8 +380,22 @@ def run_rounds(case, sched_override=None):
                     placed = True
             else:
                 hard_graph.add_node(tasks[t])
+        bridge = rnd.get('bridge')
+        if bridge and not (bridge['t'] < n and bridge['d'] in rnd['deps'][bridge['t']]
+                           and bridge['d'] not in rnd['hard'][bridge['t']]
+                           and bridge['t'] not in inside and bridge['d'] not in inside):
+            bridge = None         # (a shrunk case that lost the soft dependency: plain presentation)
+        if bridge:
+            stage = DepGraph()
+            if bridge['nested']:
+                stage.add_node(DepGraph())
+            upper, lower = (hard_graph, soft_graph) if bridge['kind'] == 'hs' else (soft_graph, hard_graph)
+            upper.add_dependency(tasks[bridge['t']], on=stage)
+            lower.add_dependency(stage, on=tasks[bridge['d']])
         for t in insert:
             for d in rnd['deps'][t]:
+                if bridge and (t, d) == (bridge['t'], bridge['d']):
+                    continue                    # stands in the graphs as the two edges of the empty stage (above)
                 if (t in inside) != (d in inside):
                     continue                    # stands in the graphs as an edge from / to the block (below)
                 if t in inside:
@@ -587,7 +613,7 @@ def spec_status(rnd):
         if any(spec[h] in (4, 5) for h in rnd['hard'][t]):
             spec.append(5)
         else:
-            spec.append(3 if rnd['out'][t] == 'done' else 4)
+            spec.append(3 if MODEL_OUTCOME.get(rnd['out'][t], rnd['out'][t]) == 'done' else 4)
     return spec
 
 
